@@ -1508,6 +1508,9 @@ class NodeListComprehensionProduct:
                         continue
                 value = self.valueExpr.evaluate(localEnv)
                 result.addItem(value)
+            # like the inner loop of the equivalent nested loops: its variable
+            # is gone when the second collection is evaluated the next time
+            localEnv.remove(self.identifier2)
         return result
 
     def __repr__(self):
@@ -2162,6 +2165,9 @@ class NodeSetComprehensionProduct:
                         continue
                 value = self.valueExpr.evaluate(localEnv)
                 result.addItem(value)
+            # like the inner loop of the equivalent nested loops: its variable
+            # is gone when the second collection is evaluated the next time
+            localEnv.remove(self.identifier2)
         return result
 
     def __repr__(self):
